@@ -673,4 +673,132 @@ Section Sim.
   Theorem mt_reader_equals_st : forall f idx ops, wfile f ->
     m_run P sch f idx (m_init f) (map MOp ops) = ReaderOps.run true f idx (ReaderOps.init f) ops.
   Proof. intros f idx ops Hf. apply run_sim; [exact Hf|apply init_R; exact Hf]. Qed.
+  (* ---- histories that end with finish(), or contain get_mut() ---------------------------- *)
+
+  Lemma run_sim_app : forall f idx ops tail m st, wfile f -> R m st ->
+    exists m' st', R m' st' /\
+      m_run P sch f idx m (map MOp ops ++ tail)
+      = ReaderOps.run true f idx st ops ++ m_run P sch f idx m' tail.
+  Proof.
+    induction ops as [|o ops IH]; intros tail m st Hf H; cbn [map app m_run ReaderOps.run].
+    - exists m, st. split; [exact H|reflexivity].
+    - destruct (step_sim f idx m st o Hf H) as [H1 H2].
+      destruct (m_step P sch f idx m (MOp o)) as [m1 x]. destruct (ReaderOps.step true f idx st o) as [st1 y].
+      cbn [fst snd] in H1, H2. subst y. rewrite (vpos_R _ _ H1).
+      destruct (IH tail m1 st1 Hf H1) as (m' & st' & HR & E). exists m', st'. split; [exact HR|].
+      rewrite E. reflexivity.
+  Qed.
+
+  (* finish() after any history returns (it never panics on a live reader, and the join it waits
+     for is [drain], which ends) and hands the inner reader back; what was delivered before is
+     what the single-threaded reader delivers *)
+  Theorem finish_returns : forall f idx ops, wfile f ->
+    exists off vp,
+      m_run P sch f idx (m_init f) (map MOp ops ++ [Finish])
+      = ReaderOps.run true f idx (ReaderOps.init f) ops ++ [(OPos (Ok off), vp)] /\ off <= csum f.
+  Proof.
+    intros f idx ops Hf.
+    destruct (run_sim_app f idx ops [Finish] (m_init f) (ReaderOps.init f) Hf (init_R f Hf))
+      as (m' & st' & HR & E).
+    destruct (pause_R m' st' HR) as [inner Hpa].
+    exists (csum f - csum inner). eexists. rewrite E. split; [|lia].
+    f_equal. cbn [m_run m_step]. unfold m_finish. rewrite Hpa. reflexivity.
+  Qed.
+
+  (* get_mut() directly before a seek changes nothing: the seek pauses the reader anyway *)
+  Lemma get_mut_then_seek : forall f m v, drop_to f 0 (vcomp v) <> None ->
+    m_seek P sch f (fst (m_get_mut P f m)) v = m_seek P sch f m v.
+  Proof.
+    intros f m v Hd. destruct m as [fs c|s|c]; unfold m_get_mut, m_seek; cbn [pause fst].
+    - reflexivity.
+    - destruct (drop_to f 0 (vcomp v)) as [r|]; [reflexivity|contradiction].
+    - reflexivity.
+  Qed.
+
+  (* the read-ahead a pause leaves behind: the inner reader is at most worker_count + 2 frames
+     past what the application has taken (the buffers bound it) *)
+  Lemma drain_spec : forall fuel s,
+    exists k, todo (drain P fuel s) = skipn k (todo s) /\
+      (k = 0 \/ k + length (chan s) + (if Sched.is_some (hold s) then 1 else 0) <= P + 2)%nat.
+  Proof.
+    induction fuel as [|fuel IH]; intros s; cbn [drain].
+    - exists O. split; [reflexivity|left; reflexivity].
+    - destruct (penabled P s Submit) eqn:E.
+      + assert (Hs : exists x, todo s = x :: todo (pstep P s Submit) /\
+                       length (chan (pstep P s Submit)) = S (length (chan s)) /\
+                       hold (pstep P s Submit) = hold s /\
+                       (length (chan s) + (if Sched.is_some (hold s) then 1 else 0) < P + 2)%nat).
+        { unfold pstep, Sched.step. unfold penabled in E. rewrite E.
+          destruct s as [td n ch h p r d co c]. cbn [Sched.enabled todo chan hold cs] in *.
+          destruct td as [|x xs]; [discriminate|]. exists x. cbn [todo chan hold].
+          rewrite app_length. cbn [length].
+          apply andb_prop in E. destruct E as [E _]. unfold can_sub in E. apply Nat.ltb_lt in E.
+          repeat split; try reflexivity; lia. }
+        destruct Hs as (x & Ht & Hc & Hh & Hlt).
+        destruct (IH (pstep P s Submit)) as [k [Hk Hb]].
+        exists (S k). rewrite Ht. cbn [skipn]. split; [exact Hk|]. right.
+        rewrite Hc, Hh in Hb. destruct Hb as [Hb|Hb]; [subst k; lia|lia].
+      + exists O. split; [reflexivity|left; reflexivity].
+  Qed.
 End Sim.
+
+(* ---- op histories with get_mut ------------------------------------------------------------ *)
+
+(* every get_mut is directly followed by a seek to a frame boundary; no finish *)
+Fixpoint guarded (f : file) (ops : list mop) : Prop :=
+  match ops with
+  | [] => True
+  | MOp _ :: r => guarded f r
+  | GetMut :: r =>
+      match r with
+      | MOp (Seek v) :: _ => drop_to f 0 (vcomp v) <> None
+      | _ => False
+      end /\ guarded f r
+  | Finish :: _ => False
+  end.
+
+Fixpoint strip (ops : list mop) : list op :=
+  match ops with
+  | [] => []
+  | MOp o :: r => o :: strip r
+  | _ :: r => strip r
+  end.
+
+(* the outputs of the ops both readers have *)
+Fixpoint sel (ops : list mop) (outs : list (out * res N)) : list (out * res N) :=
+  match ops, outs with
+  | MOp _ :: r, x :: xs => x :: sel r xs
+  | _ :: r, _ :: xs => sel r xs
+  | _, _ => []
+  end.
+
+Section Guarded.
+  Variables (P : nat) (sch : nat -> list act).
+  Hypothesis HP : (0 < P)%nat.
+
+  Lemma guarded_sim : forall f idx ops m st, wfile f -> R m st -> guarded f ops ->
+    sel ops (m_run P sch f idx m ops) = ReaderOps.run true f idx st (strip ops).
+  Proof.
+    induction ops as [|o ops IH]; intros m st Hf H G; [reflexivity|].
+    destruct o as [o| |].
+    - cbn [guarded] in G. cbn [m_run strip ReaderOps.run].
+      destruct (step_sim P sch HP f idx m st o Hf H) as [H1 H2].
+      destruct (m_step P sch f idx m (MOp o)) as [m1 x]. destruct (ReaderOps.step true f idx st o) as [st1 y].
+      cbn [fst snd] in H1, H2. subst y. cbn [sel]. rewrite (vpos_R P sch HP _ _ H1). f_equal.
+      apply IH; assumption.
+    - cbn [guarded] in G. destruct G as [G1 G2]. cbn [strip].
+      destruct ops as [|o2 ops2]; [contradiction|].
+      destruct o2 as [o2| |]; try contradiction.
+      destruct o2 as [n|n|n| |n|v|p|n]; try contradiction.
+      rewrite <- (IH m st Hf H G2).
+      cbn [m_run]. cbn [m_step].
+      pose proof (get_mut_then_seek P sch f m v G1) as E.
+      destruct (m_get_mut P f m) as [m' x]. cbn [fst] in E. cbn [sel]. rewrite E. reflexivity.
+    - destruct G.
+  Qed.
+
+  Theorem mt_reader_get_mut_before_seek : forall f idx ops, wfile f -> guarded f ops ->
+    sel ops (m_run P sch f idx (m_init f) ops)
+    = ReaderOps.run true f idx (ReaderOps.init f) (strip ops).
+  Proof. intros f idx ops Hf G. apply guarded_sim; [exact Hf|eapply init_R; eassumption|exact G]. Qed.
+End Guarded.
